@@ -269,6 +269,45 @@ def special_case(case):
                         state.close()
                 res["states"].append(digest_obj((kind, warm, unprot)))
                 res["nontrivial"].add(digest_obj((kind, warm, unprot)))
+    elif kind == "special-values":
+        # the special-name tree, two objects sharing their fan-out prefix, and the zero-byte object
+        from ..xfer import LISTING, OID_BYTES
+
+        for skind in ("local", "base"):
+            with World() as w:
+                odb = make_odb(skind, w.p("s"))
+                cache = make_odb("local", w.p("cache"))
+                ts, tw = TREE_OID["TS"], TREE_OID["TW"]
+                files = sorted(set(LISTING["TS"].values()) | set(LISTING["TW"].values()) | {MD5["e"]})
+                for o in files + [ts, tw]:
+                    put_raw(odb, o, OID_BYTES.get(o, b""))
+                for o in (ts, tw):
+                    put_raw(cache, o, OID_BYTES[o])
+                absent = list(LISTING["TW"].values())[0]
+                os.chmod(odb.oid_to_path(absent), 0o644)
+                os.unlink(odb.oid_to_path(absent))   # one of the two prefix twins is missing
+                for shallow in (True, False):
+                    q = {hi(ts), hi(tw), hi(MD5["e"])} | {hi(o) for o in LISTING["TW"].values()}
+                    st = status(odb, q, cache_odb=cache, shallow=shallow, jobs=1)
+                    res["n"] += 1
+                    res["trans"] += 1
+                    res["vac"]["special_runs"] += 1
+                    ex = {h.value for h in st.exists}
+                    ms = {h.value for h in st.missing}
+                    want = {ts, tw, MD5["e"]} | set(LISTING["TW"].values())
+                    if not shallow:
+                        want |= set(LISTING["TS"].values())
+                    want_ms = {absent}
+                    if ex != want - want_ms or ms != want_ms:
+                        note(f"status-partition-wrong/special-values/{skind}",
+                             f"shallow={shallow} wrongly missing={sorted(o[:8] for o in (want - want_ms) - ex)} "
+                             f"wrongly existing={sorted(o[:8] for o in ex - (want - want_ms))} lost={sorted(o[:8] for o in want - ex - ms)}",
+                             {"shape": kind})
+                    now = set(objects_only(store_snapshot(odb.path)))
+                    if now != set(files + [ts, tw]) - {absent}:
+                        note(f"status-changed-the-store/special-values/{skind}", "", {"shape": kind})
+            res["states"].append(digest_obj((kind, skind)))
+            res["nontrivial"].add(digest_obj((kind, skind)))
     else:  # shared-tmp-dir
         with World() as w:
             tmp = w.mkdir("indexes")
@@ -500,7 +539,7 @@ def run(ctx):
                 if kind == "local" and fillers and len(content) not in (0, len(universe)):
                     continue
                 cs.append({"part": "status", "kind": kind, "content": list(content), "fillers": fillers})
-    cs += [{"part": "special", "shape": sh} for sh in ("big-index", "stateful-local", "shared-tmp-dir")]
+    cs += [{"part": "special", "shape": sh} for sh in ("big-index", "stateful-local", "shared-tmp-dir", "special-values")]
     ctx.run_cases("run_case", cs, chunksize=1, det=2)
     # (b) BFS
     nodedup = 3 if ctx.tier == "thorough" else 2
